@@ -255,7 +255,7 @@ def replay(r):
     if "common.py::shim" in name or "common.py::_make_stitch_pars" in name:
         from .C05_fits import replay as replay_c05
         return replay_c05(r)
-    if (r.get("meta") or {}).get("op") and (r.get("meta") or {}).get("backend"):
+    if ((r.get("meta") or {}).get("op") or (r.get("meta") or {}).get("lifecycle")) and (r.get("meta") or {}).get("backend"):
         from .BK_backend_ops import replay_backend_op
         return replay_backend_op(r)
     backend = "pytorch" if "opt_pytorch" in name else ("tensorflow" if "opt_tflow" in name else ("jax" if "opt_jax" in name else None))
